@@ -11,7 +11,7 @@ from collections.abc import Callable
 import logging
 
 from xknx.exceptions import CommunicationError, CouldNotParseKNXIP, IncompleteKNXIPFrame
-from xknx.knxip import HPAI, HostProtocol, KNXIPFrame
+from xknx.knxip import HPAI, HostProtocol, KNXIPFrame, KNXIPHeader
 
 from .ip_transport import KNXIPTransport
 
@@ -103,6 +103,20 @@ class TCPTransport(KNXIPTransport):
                 couldnotparseknxip.description,
                 raw.hex(),
             )
+            # skip the malformed frame if its header announces a usable length;
+            # otherwise the stream position is lost and the rest is dropped
+            next_frame_part = b""
+            if (
+                len(raw) >= KNXIPHeader.HEADERLENGTH
+                and raw[0] == KNXIPHeader.HEADERLENGTH
+            ):
+                total_length = int.from_bytes(raw[4:6], "big")
+                if total_length > len(raw):
+                    # the rest of the malformed frame has not arrived yet
+                    self._buffer = raw
+                    return
+                if total_length >= KNXIPHeader.HEADERLENGTH:
+                    next_frame_part = raw[total_length:]
         else:
             knx_logger.debug(
                 "Received from %s: %s",
